@@ -539,3 +539,59 @@ def c03(tier, seed):
         "one fn_impl body and forward their parameters positionally; Machine::instance() is called from arms only (and needs "
         "unsafe: compile_fail witness in the thorough tier).",
         trusted_base=["engine/models.py", "engine/bv.py", "spec/*.py", "rustc target-feature facts"])
+
+
+@check("C02")
+def c02(tier, seed):
+    r = Report("C02", tier, "other", seed)
+    facts.load("K1")
+    names = ["ChaCha20", "Ietf"] if tier == "quick" else ["ChaCha20", "Ietf", "XChaCha8", "ChaCha12"]
+    nchunks = 8 if tier == "quick" else 16
+    jobs = [(check_chacha.c02_seek_types, ("K1",))]
+    for nm in names:
+        for i in range(nchunks):
+            jobs.append((check_chacha.c02_histories, ("K1", nm, tier, "R2.3", (i, nchunks))))
+    rets = par.run(r, jobs)
+    nh = sum(x for x in rets[1:] if x)
+    r.floor("histories evaluated", nh, 500 if tier == "quick" else 6000)
+    r.floor("seek type/value instances", rets[0] or 0, 150)
+    r.assumptions = ["ChaCha::refill / refill4 are replaced by their C14 semantics (block at the 64-bit counter as an uninterpreted function of the state rows, counter + 1 / + 4); C14 decides that the real functions are exactly that",
+                     "histories are a finite family (see coverage.rule); each covers all keys, nonces and data contents",
+                     "MIR is the dev-profile MIR: overflow checks are Assert terminators, so debug-only panics are included"]
+    return r.finish(
+        "NOT a proof over all call histories (that needs an inductive invariant and is declined as outside static analysis). "
+        "What is decided: for every history in a finite family - seek to positions around 0, mid-block, block edges, the 2^32-block "
+        "carry of the low counter word, the end of the 32-bit keystream and the top of the u64 range, followed by one or two "
+        "requests of boundary lengths (0,1,63,64,65,256,321,...), re-seeks backwards/forwards/to the same place, requests after a "
+        "failed request - the value graph of every processed byte equals data ^ keystream[absolute position] for symbolic key, "
+        "nonce and data; try_current_pos equals the absolute position after every step; key rows and nonce words never change; "
+        "no Assert or panic call is reachable on these paths (dev profile). R2.2: try_seek::<T> for all seven SeekNum types and "
+        "boundary values succeeds exactly for in-range positions and otherwise returns LoopError.",
+        trusted_base=["engine/interp.py + models (Buffer logic is interpreted from its real MIR)", "C14 for the block function"],
+        coverage_extra={"rule": "histories = {seek p; apply n1; [apply n2]} for p in boundary positions x lengths, plus re-seek and end-of-stream families; distinct = distinct operation sequences",
+                        "evaluations": nh, "distinct_nontrivial": nh})
+
+
+@check("C11")
+def c11(tier, seed):
+    r = Report("C11", tier, "other", seed)
+    facts.load("K1")
+    names = ["Ietf", "ChaCha20", "XChaCha20"] if tier == "quick" else ["Ietf", "ChaCha8", "ChaCha12", "ChaCha20", "XChaCha8", "XChaCha12", "XChaCha20"]
+    jobs = [(check_chacha.c02_seek_types, ("K1", "R11.1"))]
+    for nm in names:
+        for i in range(4):
+            jobs.append((check_chacha.c11_histories, ("K1", nm, (i, 4))))
+    rets = par.run(r, jobs)
+    nh = sum(x for x in rets[1:] if x)
+    r.floor("end-of-keystream histories", nh, 150)
+    r.assumptions = ["refill / refill4 replaced by their C14 semantics", "finite family of histories around the limits; symbolic key, nonce and data"]
+    return r.finish(
+        "Decided on a finite family of histories around the end of the 32-bit-counter keystream (2^38 bytes), the 2^32-block carry "
+        "and the top of the 64-bit range: a request crossing the end returns an error with the data graph unchanged, "
+        "try_current_pos unchanged and later in-range requests correct (R11.2); a request or seek ending exactly at the limit "
+        "succeeds; try_seek past the end returns LoopError for every SeekNum type (R11.1); the nonce / stream-id words of the "
+        "state are never modified, in particular not by the counter's carry after the last block (R11.3); 64-bit variants "
+        "succeed for every u64 position incl. requests running over 2^64 bytes, with positions not representable in u64 "
+        "reported as OverflowError. Not decided: arbitrary histories (no inductive argument).",
+        trusted_base=["engine/interp.py + models", "C14"],
+        coverage_extra={"evaluations": nh, "distinct_nontrivial": nh})
